@@ -55,7 +55,21 @@ void operator delete(void* p, std::size_t) noexcept { operator delete(p); }
 void operator delete[](void* p, std::size_t) noexcept { operator delete(p); }
 
 namespace {
-using vs::VPay;
+// The payload: vs::VPay plus a recognisable initializer_list constructor (JSON-like / vector<any>-like types have
+// one).  List-initialisation from a payload - `T newObj{*handle}` instead of `T newObj(*handle)` - selects it, and
+// the new object is then a one-element WRAPPER, not a copy of the stored value: reported as K_FAULT code 9, the
+// value is the sentinel -9999.  Nothing in the unmodified library or in this driver list-initialises a payload
+// from a payload (the explicit VPay(long) keeps `T{n}` away from it), so it is never selected on the unchanged tree.
+struct VPay: vs::VPay {
+    explicit VPay(long x): vs::VPay(x) {}
+    VPay(const VPay&) = default;
+    VPay(VPay&&) = default;
+    VPay(std::initializer_list<VPay> il): vs::VPay(-9999L)
+    {
+        (void)il;
+        vs::fault(this, 9);
+    }
+};
 
 struct IInst {
     virtual ~IInst() = default;
